@@ -9,6 +9,11 @@
 // nobody finishes, so everything the library is willing to start is in flight at once;
 // timing can only make the reading too low, never too high, so there are no false alarms.
 //
+// A second family, "interfering callers", holds such a pass at the gate and lets other
+// goroutines call Stabilize / ParallelStabilize / Set+Stabilize / Set+ParallelStabilize on
+// the same graph: every one of them must be turned away, and the in-flight count of the
+// GRAPH (node functions of all passes) must stay within p.  See runInterference.
+//
 // The readings also go to a Gallina file: BatchRun.mismatches compares them with the
 // transition system of Batch.v (Semaphore variant = min w p; Current variant = w).
 package main
@@ -138,6 +143,272 @@ func runGate(w, p int, useDefault bool, base int, cancelFirst bool) gateCase {
 	return out
 }
 
+// ------------------------------------------------------------------ interfering callers
+
+// C20 bounds the node computations in progress on ONE GRAPH, whatever its callers do.  While
+// a gated ParallelStabilize(p) pass is held -- all p slots taken by node functions blocked
+// on the gate, the dispatcher waiting for a slot -- other goroutines run a script of calls
+// against the same graph: a serial Stabilize, a ParallelStabilize, a Set on a var outside
+// the held block followed by either.  Node functions of ALL passes count themselves into
+// the same in-flight counter.  Facts (sampled; the gate forces the schedule, the only wait
+// is the bounded "count stopped moving"):
+//   - every interfering call returns ErrAlreadyStabilizing;
+//   - no interfering call runs a node function;
+//   - the in-flight high-water mark of the graph never exceeds p;
+//   - once the gate opens the held pass returns nil and the block has the right values.
+
+type passIDKey struct{}
+
+type interferenceOp struct {
+	Kind   string `json:"call"` // stabilize | parallel | set+stabilize | set+parallel
+	Result string `json:"result"`
+	RanFns int    `json:"node_functions_it_started"`
+}
+
+type interference struct {
+	P          int              `json:"p"`
+	W          int              `json:"w"`
+	Script     []string         `json:"script"`
+	Ops        []interferenceOp `json:"calls"`
+	Before     int              `json:"in_flight_high_water_before_the_script"`
+	Observed   int              `json:"in_flight_high_water_after_the_script"`
+	FirstErr   string           `json:"held_pass_returned"`
+	ValuesOK   bool             `json:"block_values_ok"`
+	Problems   []string         `json:"problems,omitempty"`
+	Notes      []string         `json:"notes,omitempty"`
+	scriptName string
+}
+
+const heldPass = 1
+
+func errText(err error) string {
+	switch {
+	case err == nil:
+		return "<nil>"
+	case errors.Is(err, incr.ErrAlreadyStabilizing):
+		return "ErrAlreadyStabilizing"
+	}
+	return err.Error()
+}
+
+func runInterference(p, w int, script []string, rng *hx.Rand) interference {
+	out := interference{P: p, W: w, Script: script, scriptName: strings.Join(script, ",")}
+	problem := func(format string, args ...any) { out.Problems = append(out.Problems, fmt.Sprintf(format, args...)) }
+	g := incr.New(incr.OptGraphParallelism(p))
+	var inflight, high atomic.Int64
+	var armed atomic.Bool
+	var mu sync.Mutex
+	started := map[int]int{} // pass id -> node functions started while armed
+	gate := make(chan struct{})
+	fn := func(ctx context.Context, v int) (int, error) {
+		if !armed.Load() {
+			return v + 1, nil
+		}
+		id, _ := ctx.Value(passIDKey{}).(int)
+		mu.Lock()
+		started[id]++
+		mu.Unlock()
+		n := inflight.Add(1)
+		for {
+			h := high.Load()
+			if n <= h || high.CompareAndSwap(h, n) {
+				break
+			}
+		}
+		<-gate
+		inflight.Add(-1)
+		return v + 1, nil
+	}
+	startedBy := func(id int) int {
+		mu.Lock()
+		defer mu.Unlock()
+		return started[id]
+	}
+	// the held block, and vars outside it for the scripts to set
+	nfresh := len(script)
+	vars := make([]incr.VarIncr[int], w+nfresh)
+	obs := make([]incr.ObserveIncr[int], w+nfresh)
+	want := make([]int, w+nfresh)
+	for i := range vars {
+		vars[i] = incr.Var(g, rng.Range(0, 1000))
+		o, err := incr.Observe(g, incr.MapContext(g, vars[i], fn))
+		if err != nil {
+			problem("observe: %v", err)
+			return out
+		}
+		obs[i] = o
+	}
+	if err := g.Stabilize(context.Background()); err != nil {
+		problem("initial Stabilize: %v", err)
+		return out
+	}
+	for i := range vars {
+		want[i] = vars[i].Value() + 1
+	}
+	for i := 0; i < w; i++ {
+		x := rng.Range(1001, 1<<20)
+		vars[i].Set(x)
+		want[i] = x + 1
+	}
+	armed.Store(true)
+	first := make(chan error, 1)
+	go func() { first <- g.ParallelStabilize(context.WithValue(context.Background(), passIDKey{}, heldPass)) }()
+	waitQuiet := func(floor int, limit time.Duration) {
+		start := time.Now()
+		last, lastChange := inflight.Load(), start
+		for {
+			time.Sleep(time.Millisecond)
+			now := time.Now()
+			if cur := inflight.Load(); cur != last {
+				last, lastChange = cur, now
+			}
+			if now.Sub(lastChange) >= stableFor && (int(last) >= floor || now.Sub(start) >= limit/2) {
+				return
+			}
+			if now.Sub(start) >= limit {
+				return
+			}
+		}
+	}
+	floor := w
+	if p < floor {
+		floor = p
+	}
+	waitQuiet(floor, hardWait)
+	out.Before = int(high.Load())
+	firstDone := false
+	var firstErr error
+	held := func() bool { // the first pass has not returned and some of its node functions sit at the gate
+		if firstDone {
+			return false
+		}
+		select {
+		case firstErr = <-first:
+			firstDone = true
+			return false
+		default:
+		}
+		return inflight.Load() > 0
+	}
+	type pending struct {
+		op   int
+		done chan error
+	}
+	var waiting []pending
+	fresh := w
+	for k, kind := range script {
+		id := 100 + k
+		heldBefore := held()
+		if strings.HasPrefix(kind, "set+") {
+			x := rng.Range(1001, 1<<20)
+			vars[fresh].Set(x)
+			want[fresh] = x + 1
+			fresh++
+		}
+		ctx := context.WithValue(context.Background(), passIDKey{}, id)
+		done := make(chan error, 1)
+		if strings.HasSuffix(kind, "parallel") {
+			go func() { done <- g.ParallelStabilize(ctx) }()
+		} else {
+			go func() { done <- g.Stabilize(ctx) }()
+		}
+		op := interferenceOp{Kind: kind}
+		select {
+		case err := <-done:
+			op.Result = errText(err)
+		case <-time.After(100 * time.Millisecond):
+			// not back yet: either slow, or let in and stuck behind the gate.  Let the counters settle.
+			waitQuiet(0, time.Second)
+			select {
+			case err := <-done:
+				op.Result = errText(err)
+			default:
+				op.Result = "has not returned"
+				waiting = append(waiting, pending{k, done})
+			}
+		}
+		op.RanFns = startedBy(id)
+		heldAfter := held()
+		out.Ops = append(out.Ops, op)
+		what := fmt.Sprintf("call %d of the script (%s), issued while the ParallelStabilize(%d) pass was held at the gate,", k+1, kind, p)
+		if op.RanFns > 0 {
+			problem("%s was let in and started %d node function(s) of its own", what, op.RanFns)
+		}
+		if heldBefore && heldAfter && op.Result != "ErrAlreadyStabilizing" && op.Result != "has not returned" {
+			problem("%s returned %s, not ErrAlreadyStabilizing", what, op.Result)
+		}
+	}
+	waitQuiet(0, time.Second)
+	out.Observed = int(high.Load())
+	stillHeld := held()
+	if out.Observed > p {
+		problem("%d node computations of the graph were in progress at the same time with parallelism %d (the held pass had %d in flight before the script)", out.Observed, p, out.Before)
+	}
+	close(gate)
+	if !firstDone {
+		select {
+		case firstErr = <-first:
+			firstDone = true
+		case <-time.After(doneWait):
+			problem("the held ParallelStabilize did not return after the gate was opened")
+			return out
+		}
+	}
+	out.FirstErr = errText(firstErr)
+	if firstErr != nil {
+		problem("the held ParallelStabilize returned %v", firstErr)
+	}
+	if !stillHeld && out.Before > 0 {
+		out.Notes = append(out.Notes, "the held pass was no longer held when the script ended")
+	}
+	for _, pd := range waiting {
+		select {
+		case err := <-pd.done:
+			out.Ops[pd.op].Result = "returned " + errText(err) + " only after the gate was opened"
+			out.Ops[pd.op].RanFns = startedBy(100 + pd.op)
+			if out.Ops[pd.op].RanFns > 0 && !errors.Is(err, incr.ErrAlreadyStabilizing) {
+				// whether it overlapped is decided by the counters above; this is only the record
+				out.Notes = append(out.Notes, fmt.Sprintf("call %d (%s) ran %d node function(s)", pd.op+1, script[pd.op], out.Ops[pd.op].RanFns))
+			}
+		case <-time.After(doneWait):
+			problem("call %d of the script (%s) did not return after the gate was opened", pd.op+1, script[pd.op])
+			return out
+		}
+	}
+	out.ValuesOK = true
+	for i := 0; i < w; i++ {
+		if obs[i].Value() != want[i] {
+			out.ValuesOK = false
+		}
+	}
+	if !out.ValuesOK {
+		problem("the held pass returned but its block does not hold the values of its inputs")
+	}
+	// what the scripts set while the pass was running belongs to the next pass
+	if err := g.Stabilize(context.Background()); err != nil {
+		out.Notes = append(out.Notes, "Stabilize after the scenario: "+err.Error())
+	} else {
+		for i := w; i < len(obs); i++ {
+			if obs[i].Value() != want[i] {
+				out.Notes = append(out.Notes, fmt.Sprintf("var %d set during the held pass: observer holds %d after the next pass, want %d", i-w, obs[i].Value(), want[i]))
+				break
+			}
+		}
+	}
+	return out
+}
+
+var fixedScripts = [][]string{
+	{"stabilize"},
+	{"parallel"},
+	{"set+stabilize"},
+	{"set+parallel"},
+	{"stabilize", "set+parallel"},
+	{"parallel", "set+stabilize"},
+	{"stabilize", "stabilize", "parallel", "set+parallel", "set+stabilize"},
+	{"set+parallel", "set+parallel", "stabilize", "set+parallel", "parallel"},
+}
+
 func main() {
 	var (
 		seed    = flag.Uint64("seed", 1, "seed (order of the cases, the extra random cases, the var values)")
@@ -146,6 +417,7 @@ func main() {
 		coqOut  = flag.String("coq", "", "Gallina cases file to write")
 		coqMax  = flag.Int("coqmax", 400, "at most this many cases go to the Gallina file")
 		jsonOut = flag.String("json", "", "report file")
+		nscript = flag.Int("interfere", 4, "number of random scripts of interfering callers per parallelism, next to the fixed ones (-1: skip the family)")
 	)
 	flag.Parse()
 	rep := hx.NewReport("batchgate", *seed)
@@ -242,11 +514,51 @@ func main() {
 				name, best.Observed, best.WaitedMS, floor))
 		}
 	}
+	// ---- interfering callers
+	var interf []interference
+	if *nscript >= 0 {
+		kinds := []string{"stabilize", "parallel", "set+stabilize", "set+parallel"}
+		for _, p := range []int{1, 2, 4} {
+			scripts := append([][]string(nil), fixedScripts...)
+			for i := 0; i < *nscript; i++ {
+				var sc []string
+				for n := rng.Range(2, 6); n > 0; n-- {
+					sc = append(sc, kinds[rng.Intn(len(kinds))])
+				}
+				scripts = append(scripts, sc)
+			}
+			for _, sc := range scripts {
+				r := runInterference(p, p+3, sc, rng.Fork())
+				interf = append(interf, r)
+				rep.Evaluations++
+				rep.Count("interference")
+				for _, k := range sc {
+					rep.Count("interfering-call: " + k)
+				}
+				distinct.Add(fmt.Sprintf("interference/%d/%s", p, r.scriptName))
+				for _, n := range r.Notes {
+					rep.Notes = append(rep.Notes, fmt.Sprintf("interference p=%d [%s]: %s", p, r.scriptName, n))
+				}
+				if len(r.Problems) > 0 {
+					rep.AddViolation(hx.Violation{Property: "C20",
+						What: fmt.Sprintf("ParallelStabilize with parallelism %d held at the gate over a block of %d nodes (all %d slots taken), other goroutines calling [%s] meanwhile: %s",
+							p, r.W, p, r.scriptName, strings.Join(r.Problems, "; ")),
+						Key:    fmt.Sprintf("interference:p=%02d:n=%d:%s", p, len(sc), r.scriptName),
+						Replay: map[string]any{"kind": "interfering-callers", "p": p, "w": r.W, "script": sc, "outcome": r}})
+				}
+			}
+		}
+		if len(interf) > 0 {
+			rep.Samples = append(rep.Samples, map[string]any{"interfering_callers": interf[len(interf)/2]})
+		}
+	}
 	rep.Distinct = len(distinct)
 	rep.Exhaustive = false
 	rep.Rule = fmt.Sprintf("one gated ParallelStabilize per (w,p): w in {1,p-1,p,p+1,4p,64} x p in {1,2,4,16}, the same widths at the default "+
 		"parallelism (runtime.NumCPU()=%d, no option), (32,2), and %d seeded random pairs w<=96, p<=24; %d repetition(s) each; "+
-		"non-trivial = width >= 2 (an overlap is possible at all); distinct by (w,p,default)", ncpu, *extra, *reps)
+		"non-trivial = width >= 2 (an overlap is possible at all); distinct by (w,p,default). Interfering callers: for p in {1,2,4} a gated pass over p+3 nodes is held while "+
+		"other goroutines run %d fixed and %d seeded scripts of Stabilize / ParallelStabilize / Set+Stabilize / Set+ParallelStabilize against the graph; distinct by (p, script)",
+		ncpu, *extra, *reps, len(fixedScripts), max(*nscript, 0))
 	sorted := append([]gateCase(nil), results...)
 	sort.Slice(sorted, func(i, j int) bool {
 		if sorted[i].P != sorted[j].P {
@@ -263,6 +575,9 @@ func main() {
 		sample := sorted
 		if len(sample) > *coqMax {
 			sample = sample[:*coqMax]
+		}
+		for _, r := range interf { // the bound is the same with other callers around: min w p in flight
+			sample = append(sample, gateCase{W: r.W, P: r.P, Observed: r.Observed})
 		}
 		rep.CoqCases = len(sample)
 		var b strings.Builder
